@@ -40,7 +40,7 @@ func init() {
 	})
 }
 
-var emptyForms = []string{"{}", "Patient.photo", "%emptyc", "Patient.maritalStatus", "%nilc", "%sparec"} // (an absent repeated and an absent singular element)
+var emptyForms = []string{"{}", "Patient.photo", "%emptyc", "Patient.maritalStatus", "%nilc", "%sparec", "%resource", "%rootResource", "%bw.entry.resource"} // (an absent repeated and an absent singular element)
 
 // c07Prog: want = "empty" | "empty-or-error" | "str:<text>"
 func c07Prog(env *core.Env, key, src, want string) {
